@@ -1,3 +1,665 @@
 package main
 
-func runC18(id string) int { return 2 }
+import (
+	"fmt"
+	"reflect"
+	"runtime"
+	"strings"
+	"sync"
+	"time"
+
+	"verif/internal/prng"
+	"verif/internal/reg"
+	"verif/internal/verdict"
+)
+
+// kval is one value of a given kind: the Go value handed to the library and
+// the JSON it must serialise to.
+type kval struct {
+	Kind string      `json:"kind"`
+	JSON interface{} `json:"json"`
+	Go   interface{} `json:"-"`
+}
+
+// mkVal builds the n-th distinct value of a kind.
+func mkVal(kind string, n int) kval {
+	switch kind {
+	case "IRI":
+		s := fmt.Sprintf("https://example.com/v/%d", n)
+		return kval{kind, s, mustURL(s)}
+	case "XMLSchemaAnyURI":
+		s := fmt.Sprintf("https://uri.example/%d", n)
+		return kval{kind, s, mustURL(s)}
+	case "XMLSchemaString", "RFCBcp47", "RFCRfc2045", "RFCRfc5988":
+		s := fmt.Sprintf("text-%d", n)
+		return kval{kind, s, s}
+	case "XMLSchemaDateTime":
+		t := time.Date(2000+n%50, time.Month(1+n%12), 1+n%28, n%24, n%60, (n*7)%60, 0, time.UTC)
+		return kval{kind, t.Format(time.RFC3339), t}
+	case "XMLSchemaDuration":
+		secs := n%59 + 1
+		return kval{kind, fmt.Sprintf("PT%dS", secs), time.Duration(secs) * time.Second}
+	case "XMLSchemaBoolean":
+		return kval{kind, n%2 == 0, n%2 == 0}
+	case "XMLSchemaFloat":
+		f := float64(n) + 0.5
+		return kval{kind, f, f}
+	case "XMLSchemaNonNegativeInteger":
+		return kval{kind, float64(n), n}
+	case "RDFLangString":
+		return kval{kind, map[string]interface{}{"en": fmt.Sprintf("m-%d", n)}, map[string]string{"en": fmt.Sprintf("m-%d", n)}}
+	}
+	// type kind
+	t := newType(kind)
+	if t == nil {
+		return kval{Kind: kind}
+	}
+	idp := concrete(reflect.ValueOf(reg.PropCtors["JSONLDId"]).Call(nil)[0])
+	callM(idp, "Set", mustURL(fmt.Sprintf("https://example.com/o/%s/%d", kind, n)))
+	callM(reflect.ValueOf(t), "SetJSONLDId", idp)
+	m, _ := t.Serialize()
+	return kval{kind, normJSON(m), t}
+}
+
+func kindSuffix(k string) string { return k }
+
+// c18Op is one step of an operation sequence.
+type c18Op struct {
+	Op   string `json:"op"` // Append Prepend Insert Set Remove Swap ElemSet | FSet FClear
+	I, J int    `json:"i,j"`
+	Val  kval   `json:"val"`
+}
+
+func (o c18Op) String() string {
+	switch o.Op {
+	case "Append", "Prepend", "FSet":
+		return fmt.Sprintf("%s(%s)", o.Op, o.Val.Kind)
+	case "Insert", "Set", "ElemSet":
+		return fmt.Sprintf("%s(%d,%s)", o.Op, o.I, o.Val.Kind)
+	case "Remove":
+		return fmt.Sprintf("Remove(%d)", o.I)
+	case "Swap":
+		return fmt.Sprintf("Swap(%d,%d)", o.I, o.J)
+	}
+	return o.Op
+}
+
+type c18Case struct {
+	Prop    string   `json:"property"`
+	Initial int      `json:"initial_deserialized_elements"`
+	Ops     []c18Op  `json:"-"`
+	OpsText []string `json:"ops"`
+	Kinds   []string `json:"kinds,omitempty"`
+	Ns      []int    `json:"value_numbers,omitempty"`
+	Raw     [][3]int `json:"raw,omitempty"`
+}
+
+// callKind invokes <op><Kind>(args..., v) with the single-kind fallback <op>(args..., v).
+func callKind(target reflect.Value, op string, kind string, single bool, args ...interface{}) (ok bool, pan interface{}) {
+	name := op + kindSuffix(kind)
+	if kind == "IRI" {
+		name = op + "IRI"
+	}
+	if _, ok, p := callM(target, name, args...); ok {
+		return true, p
+	}
+	if single {
+		if _, ok, p := callM(target, op, args...); ok {
+			return true, p
+		}
+	}
+	return false, nil
+}
+
+// elemState reads kind flags and value from an element.
+func elemMatches(el reflect.Value, want kval) string {
+	fl := trueFlags(el)
+	wk := want.Kind
+	if len(fl) != 1 {
+		return fmt.Sprintf("flags=%v want [%s]", fl, wk)
+	}
+	if fl[0] != wk && !(wk == "IRI" && fl[0] == "XMLSchemaAnyURI") && !(wk == "XMLSchemaAnyURI" && fl[0] == "IRI") {
+		return fmt.Sprintf("flags=%v want [%s]", fl, wk)
+	}
+	g, ok := getKind(el, wk)
+	if !ok {
+		return "no getter for " + wk
+	}
+	if O.Types[wk] != nil {
+		if isNil(g) || g.Interface() != want.Go {
+			return "typed accessor does not return the stored value"
+		}
+		return ""
+	}
+	lv, _ := denote(wk, want.JSON)
+	lv.Kind = wk
+	if ok, why := lv.matches(g); !ok {
+		return why
+	}
+	return ""
+}
+
+// c18Check compares the property with the model slice.
+func c18Check(pv reflect.Value, model []kval) string {
+	lo, ok, p := callM(pv, "Len")
+	if !ok || p != nil {
+		return "Len failed"
+	}
+	if int(lo[0].Int()) != len(model) {
+		return fmt.Sprintf("Len=%d want %d", lo[0].Int(), len(model))
+	}
+	if eo, ok, p := callM(pv, "Empty"); ok && p == nil && eo[0].Bool() != (len(model) == 0) {
+		return "Empty disagrees with Len"
+	}
+	at := make([]interface{}, len(model))
+	for i, m := range model {
+		o, ok, p := callM(pv, "At", i)
+		if !ok || p != nil || isNil(o[0]) {
+			return fmt.Sprintf("At(%d) failed: %v", i, p)
+		}
+		if why := elemMatches(concrete(o[0]), m); why != "" {
+			return fmt.Sprintf("At(%d): %s", i, why)
+		}
+		at[i] = o[0].Interface()
+	}
+	// forward walk
+	o, ok, p := callM(pv, "Begin")
+	if !ok || p != nil {
+		return "Begin failed"
+	}
+	cur := o[0]
+	n := 0
+	for !isNil(cur) {
+		if n >= len(model) {
+			return fmt.Sprintf("forward walk visits more than %d elements", len(model))
+		}
+		if cur.Interface() != at[n] {
+			// not the element At(n) returned: compare by content to explain
+			if why := elemMatches(concrete(cur), model[n]); why != "" {
+				return fmt.Sprintf("forward walk step %d: %s", n, why)
+			}
+		}
+		no, ok, p := callM(concrete(cur), "Next")
+		if !ok || p != nil {
+			return fmt.Sprintf("Next failed at step %d: %v", n, p)
+		}
+		cur = no[0]
+		n++
+	}
+	if n != len(model) {
+		return fmt.Sprintf("forward walk visited %d of %d elements", n, len(model))
+	}
+	if eo, ok, p := callM(pv, "End"); !ok || p != nil || !isNil(eo[0]) {
+		return "End is not nil"
+	}
+	// backward walk
+	if len(model) > 0 {
+		o, _, _ := callM(pv, "At", len(model)-1)
+		cur := o[0]
+		n := len(model) - 1
+		for !isNil(cur) {
+			if n < 0 {
+				return "backward walk visits too many elements"
+			}
+			if cur.Interface() != at[n] {
+				if why := elemMatches(concrete(cur), model[n]); why != "" {
+					return fmt.Sprintf("backward walk step %d: %s", n, why)
+				}
+			}
+			po, ok, p := callM(concrete(cur), "Prev")
+			if !ok || p != nil {
+				return fmt.Sprintf("Prev failed at %d: %v", n, p)
+			}
+			cur = po[0]
+			n--
+		}
+		if n != -1 {
+			return fmt.Sprintf("backward walk stopped at index %d", n+1)
+		}
+	}
+	// serialised form
+	so, ok, p := callM(pv, "Serialize")
+	if !ok || p != nil || !isNil(so[1]) {
+		return fmt.Sprintf("Serialize failed: %v", p)
+	}
+	var want interface{}
+	if len(model) == 1 {
+		want = normJSON(model[0].JSON)
+	} else {
+		a := make([]interface{}, len(model))
+		for i := range model {
+			a[i] = normJSON(model[i].JSON)
+		}
+		want = a
+	}
+	got := normJSON(so[0].Interface())
+	if u, isURL := want.(string); isURL {
+		_ = u
+	}
+	gj, _ := jsonify(got)
+	if !reflect.DeepEqual(gj, want) {
+		return fmt.Sprintf("Serialize=%s want %s", jstr(gj), jstr(want))
+	}
+	return ""
+}
+
+// applyOp applies one op to both the property and the model.
+func applyOp(pv reflect.Value, model []kval, op c18Op, single bool) ([]kval, string) {
+	var ok bool
+	var pan interface{}
+	switch op.Op {
+	case "Append":
+		ok, pan = callKind(pv, "Append", op.Val.Kind, false, op.Val.Go)
+		model = append(model, op.Val)
+	case "Prepend":
+		ok, pan = callKind(pv, "Prepend", op.Val.Kind, false, op.Val.Go)
+		model = append([]kval{op.Val}, model...)
+	case "Insert":
+		ok, pan = callKind(pv, "Insert", op.Val.Kind, false, op.I, op.Val.Go)
+		model = append(model, kval{})
+		copy(model[op.I+1:], model[op.I:])
+		model[op.I] = op.Val
+	case "Set":
+		ok, pan = callKind(pv, "Set", op.Val.Kind, single, op.I, op.Val.Go)
+		model = append([]kval{}, model...)
+		model[op.I] = op.Val
+	case "Remove":
+		_, ok, pan = callM(pv, "Remove", op.I)
+		model = append(append([]kval{}, model[:op.I]...), model[op.I+1:]...)
+	case "Swap":
+		_, ok, pan = callM(pv, "Swap", op.I, op.J)
+		model = append([]kval{}, model...)
+		model[op.I], model[op.J] = model[op.J], model[op.I]
+	case "ElemSet":
+		o, okA, p := callM(pv, "At", op.I)
+		if !okA || p != nil {
+			return model, fmt.Sprintf("At(%d) failed", op.I)
+		}
+		ok, pan = callKind(concrete(o[0]), "Set", op.Val.Kind, single, op.Val.Go)
+		model = append([]kval{}, model...)
+		model[op.I] = op.Val
+	}
+	if !ok {
+		return model, "mutator missing: " + op.String()
+	}
+	if pan != nil {
+		return model, fmt.Sprintf("mutator panicked: %s: %v", op.String(), pan)
+	}
+	return model, ""
+}
+
+type c18 struct {
+	r *verdict.Run
+}
+
+// newProp constructs an empty property or one deserialised from n IRIs.
+func newProp(P string, initial int) (reflect.Value, []kval, string) {
+	pr := O.Props[P]
+	if initial == 0 {
+		return concrete(reflect.ValueOf(reg.PropCtors[P]).Call(nil)[0]), nil, ""
+	}
+	host := hostType(P)
+	var list []interface{}
+	var model []kval
+	for i := 0; i < initial; i++ {
+		v := mkVal("IRI", 900+i)
+		// properties whose range reads an IRI string as another kind are
+		// started from the empty state only
+		list = append(list, v.JSON)
+		model = append(model, v)
+	}
+	var val interface{} = list
+	t, err, pan := decode(docFor(host, map[string]interface{}{pr.Name: val}))
+	if err != nil || pan != nil || t == nil {
+		return reflect.Value{}, nil, fmt.Sprintf("decode: %v %v", err, pan)
+	}
+	prop, ok := getProp(t, P)
+	if !ok || isNil(prop) {
+		return reflect.Value{}, nil, "no property after decode"
+	}
+	return prop, model, ""
+}
+
+func (c *c18) runSeq(cs c18Case) {
+	r := c.r
+	r.Eval(1)
+	pv, model, why := newProp(cs.Prop, cs.Initial)
+	if why != "" {
+		r.Violate(verdict.Sig{Rule: "C18.setup", Site: cs.Prop, Feature: why}, cs, why)
+		return
+	}
+	single := len(O.KindTypes(cs.Prop))+len(O.KindLits(cs.Prop)) == 1
+	if cs.Initial > 0 {
+		if w := c18Check(pv, model); w != "" {
+			// the deserialised start state reads IRIs as another kind; skip
+			r.Count("nonfunctional.skipped_initial_state", 1)
+			return
+		}
+	}
+	for i, op := range cs.Ops {
+		var w string
+		model, w = applyOp(pv, model, op, single)
+		if w == "" {
+			w = c18Check(pv, model)
+		}
+		if w != "" {
+			cs.OpsText = nil
+			for _, o := range cs.Ops[:i+1] {
+				cs.OpsText = append(cs.OpsText, o.String())
+			}
+			r.Violate(verdict.Sig{Rule: "C18.sequence-diverged", Site: "vocab.*Property." + op.Op, Feature: "after " + op.Op + ": " + featureOf(w)}, cs, map[string]interface{}{"step": i, "why": w, "ops": cs.OpsText})
+			return
+		}
+	}
+	r.Count("nonfunctional.ops_checked", len(cs.Ops))
+	if len(cs.Ops) > 0 {
+		var sb strings.Builder
+		for _, o := range cs.Ops {
+			sb.WriteString(o.String())
+		}
+		r.NonTrivial(fmt.Sprintf("%s|%d|%s", cs.Prop, cs.Initial, sb.String()))
+	}
+}
+
+func featureOf(w string) string {
+	for _, k := range []string{"forward walk", "backward walk", "Len=", "At(", "Serialize", "Empty", "End", "mutator missing", "mutator panicked", "Next failed", "Prev failed"} {
+		if strings.Contains(w, k) {
+			return strings.TrimSuffix(k, "=")
+		}
+	}
+	return w
+}
+
+// enumerate all sequences of IRI-valued ops up to a length.
+func (c *c18) enumerate(P string, initial, maxLen int, emit func(c18Case)) {
+	var rec func(ops []c18Op, n int, next int)
+	rec = func(ops []c18Op, n int, next int) {
+		if len(ops) > 0 {
+			cs := c18Case{Prop: P, Initial: initial, Ops: append([]c18Op{}, ops...)}
+			emit(cs)
+		}
+		if len(ops) == maxLen {
+			return
+		}
+		v := mkVal("IRI", next)
+		try := func(op c18Op, n2 int) {
+			rec(append(ops, op), n2, next+1)
+		}
+		try(c18Op{Op: "Append", Val: v}, n+1)
+		try(c18Op{Op: "Prepend", Val: v}, n+1)
+		for i := 0; i <= n; i++ {
+			try(c18Op{Op: "Insert", I: i, Val: v}, n+1)
+		}
+		for i := 0; i < n; i++ {
+			try(c18Op{Op: "Set", I: i, Val: v}, n)
+			try(c18Op{Op: "ElemSet", I: i, Val: v}, n)
+			try(c18Op{Op: "Remove", I: i}, n-1)
+			for j := i; j < n; j++ {
+				try(c18Op{Op: "Swap", I: i, J: j}, n)
+				if j != i {
+					try(c18Op{Op: "Swap", I: j, J: i}, n)
+				}
+			}
+		}
+	}
+	// only emit maximal sequences' prefixes once: emit at every node is
+	// wasteful, so emit leaves only and rely on per-step checking.
+	var leaves func(ops []c18Op, n, next int)
+	leaves = func(ops []c18Op, n, next int) {
+		if len(ops) == maxLen {
+			emit(c18Case{Prop: P, Initial: initial, Ops: append([]c18Op{}, ops...)})
+			return
+		}
+		v := mkVal("IRI", next)
+		try := func(op c18Op, n2 int) { leaves(append(append([]c18Op{}, ops...), op), n2, next+1) }
+		try(c18Op{Op: "Append", Val: v}, n+1)
+		try(c18Op{Op: "Prepend", Val: v}, n+1)
+		for i := 0; i <= n; i++ {
+			try(c18Op{Op: "Insert", I: i, Val: v}, n+1)
+		}
+		for i := 0; i < n; i++ {
+			try(c18Op{Op: "Set", I: i, Val: v}, n)
+			try(c18Op{Op: "ElemSet", I: i, Val: v}, n)
+			try(c18Op{Op: "Remove", I: i}, n-1)
+			for j := i; j < n; j++ {
+				try(c18Op{Op: "Swap", I: i, J: j}, n)
+				if j != i {
+					try(c18Op{Op: "Swap", I: j, J: i}, n)
+				}
+			}
+		}
+	}
+	_ = rec
+	leaves(nil, initial, 0)
+}
+
+// randomSeq draws a random sequence mixing every admissible kind.
+func randomSeq(P string, g *prng.R, maxLen int) c18Case {
+	kinds := []string{"IRI"}
+	kinds = append(kinds, O.KindLits(P)...)
+	tk := O.KindTypes(P)
+	for i := 0; i < 4 && len(tk) > 0; i++ {
+		k := tk[g.Intn(len(tk))]
+		if !O.Types[k].Typeless {
+			kinds = append(kinds, k)
+		}
+	}
+	cs := c18Case{Prop: P, Initial: 0}
+	if g.Chance(1, 4) {
+		cs.Initial = 2
+	}
+	n := cs.Initial
+	L := g.Range(1, maxLen)
+	for s := 0; s < L; s++ {
+		v := mkVal(kinds[g.Intn(len(kinds))], 1000+s)
+		var op c18Op
+		for {
+			switch g.Intn(7) {
+			case 0:
+				op = c18Op{Op: "Append", Val: v}
+			case 1:
+				op = c18Op{Op: "Prepend", Val: v}
+			case 2:
+				op = c18Op{Op: "Insert", I: g.Intn(n + 1), Val: v}
+			case 3:
+				if n == 0 {
+					continue
+				}
+				op = c18Op{Op: "Set", I: g.Intn(n), Val: v}
+			case 4:
+				if n == 0 {
+					continue
+				}
+				op = c18Op{Op: "Remove", I: g.Intn(n)}
+			case 5:
+				if n == 0 {
+					continue
+				}
+				op = c18Op{Op: "Swap", I: g.Intn(n), J: g.Intn(n)}
+			case 6:
+				if n == 0 {
+					continue
+				}
+				op = c18Op{Op: "ElemSet", I: g.Intn(n), Val: v}
+			}
+			break
+		}
+		switch op.Op {
+		case "Append", "Prepend", "Insert":
+			n++
+		case "Remove":
+			n--
+		}
+		cs.Ops = append(cs.Ops, op)
+	}
+	return cs
+}
+
+// functional slot sequences
+func (c *c18) runFunctional(P string, kinds []string, seq []int) {
+	r := c.r
+	r.Eval(1)
+	pv := concrete(reflect.ValueOf(reg.PropCtors[P]).Call(nil)[0])
+	single := len(O.KindTypes(P))+len(O.KindLits(P)) == 1
+	var text []string
+	var cur *kval
+	for step, ki := range seq {
+		var w string
+		if ki < 0 {
+			text = append(text, "Clear")
+			if _, ok, p := callM(pv, "Clear"); !ok || p != nil {
+				w = fmt.Sprintf("Clear failed: %v", p)
+			}
+			cur = nil
+		} else {
+			v := mkVal(kinds[ki], 10+step)
+			text = append(text, "Set("+v.Kind+")")
+			ok, p := callKind(pv, "Set", v.Kind, single, v.Go)
+			if !ok {
+				w = "setter missing for " + v.Kind
+			} else if p != nil {
+				w = fmt.Sprintf("setter panicked: %v", p)
+			}
+			cur = &v
+		}
+		if w == "" {
+			if cur == nil {
+				if fl := trueFlags(pv); len(fl) != 0 {
+					w = fmt.Sprintf("after Clear flags=%v", fl)
+				} else if o, ok, _ := callM(pv, "HasAny"); ok && o[0].Bool() {
+					w = "after Clear HasAny is true"
+				}
+			} else {
+				w = elemMatches(pv, *cur)
+				if w == "" {
+					so, ok, p := callM(pv, "Serialize")
+					if !ok || p != nil || !isNil(so[1]) {
+						w = "Serialize failed"
+					} else {
+						gj, _ := jsonify(normJSON(so[0].Interface()))
+						if !reflect.DeepEqual(gj, normJSON(cur.JSON)) {
+							w = fmt.Sprintf("Serialize=%s want %s", jstr(gj), jstr(cur.JSON))
+						}
+					}
+				}
+			}
+		}
+		if w != "" {
+			r.Violate(verdict.Sig{Rule: "C18.slot-diverged", Site: "vocab." + P + "Property", Feature: featureOf(w)}, map[string]interface{}{"property": P, "ops": text}, w)
+			return
+		}
+	}
+	r.Count("functional.ops_checked", len(seq))
+	r.NonTrivial(P + "|" + strings.Join(text, ","))
+}
+
+func runC18(id string) int {
+	r := verdict.New(id, *tier, "exploration")
+	r.Rule = "every non-functional property: all operation sequences over {Append, Prepend, Insert(i), Set(i), Remove(i), Swap(i,j), At(i).Set} on IRI values up to a length bound from the empty state and from a deserialised two-element state, plus seeded random sequences (length<=40) mixing every admissible kind; every functional property: all Set-kind/SetIRI/Clear sequences up to length 4 over <=5 kinds; after each step Len, At, forward walk, backward walk, kind flags, typed values and Serialize are compared with a plain Go slice / slot; non-trivial = a completed sequence with >=1 operation; distinct by (property, sequence)"
+	r.Assumptions = []string{"values are distinct per step so an element identifies the operation that stored it", "xsd:anyURI and IRI are one kind for properties ranged over anyURI"}
+	c := &c18{r: r}
+	if *replay != "" {
+		fmt.Println("C18 replay: re-running the whole property of the recorded case")
+		var cs map[string]interface{}
+		if err := readReplayCase(*replay, &cs); err != nil {
+			fmt.Println("replay:", err)
+			return 2
+		}
+		*tier = "quick"
+	}
+	var nf, fn []string
+	for _, p := range O.PropKeys {
+		if reg.PropCtors[p] == nil {
+			continue
+		}
+		if O.Props[p].Functional {
+			fn = append(fn, p)
+		} else {
+			nf = append(nf, p)
+		}
+	}
+	ch := make(chan func(), 1024)
+	var wg sync.WaitGroup
+	for w := 0; w < runtime.NumCPU(); w++ {
+		wg.Add(1)
+		go func() {
+			defer wg.Done()
+			for f := range ch {
+				f()
+			}
+		}()
+	}
+	maxLen := 3
+	if *tier == "thorough" {
+		maxLen = 4
+	}
+	sampled := 0
+	for pi, P := range nf {
+		P := P
+		for _, initial := range []int{0, 2} {
+			L := maxLen
+			if *tier == "thorough" && initial == 0 && (pi+int(r.SeedV))%3 == 0 {
+				L = 5
+			}
+			if initial == 2 && L > 3 {
+				L = 3
+				if *tier == "thorough" {
+					L = 4
+				}
+			}
+			c.enumerate(P, initial, L, func(cs c18Case) {
+				if sampled < 2 && len(cs.Ops) == L && cs.Ops[L-1].Op == "Swap" {
+					sampled++
+					for _, o := range cs.Ops {
+						cs.OpsText = append(cs.OpsText, o.String())
+					}
+					r.Sample(cs)
+				}
+				ch <- func() { c.runSeq(cs) }
+			})
+		}
+		nRand := 200
+		if *tier == "thorough" {
+			nRand = 5000
+		}
+		for i := 0; i < nRand; i++ {
+			i := i
+			ch <- func() { c.runSeq(randomSeq(P, prng.New(r.SeedV, "C18.rand."+P, i), 40)) }
+		}
+	}
+	r.Count("nonfunctional.properties", len(nf))
+	for _, P := range fn {
+		P := P
+		kinds := []string{"IRI"}
+		kinds = append(kinds, O.KindLits(P)...)
+		for _, k := range O.KindTypes(P) {
+			if len(kinds) >= 5 {
+				break
+			}
+			if !O.Types[k].Typeless {
+				kinds = append(kinds, k)
+			}
+		}
+		// all sequences over kinds ∪ {Clear} up to length 4
+		alpha := len(kinds) + 1
+		var rec func(seq []int)
+		rec = func(seq []int) {
+			if len(seq) > 0 {
+				s := append([]int{}, seq...)
+				ch <- func() { c.runFunctional(P, kinds, s) }
+			}
+			if len(seq) == 4 {
+				return
+			}
+			for a := 0; a < alpha; a++ {
+				rec(append(seq, a-1))
+			}
+		}
+		rec(nil)
+	}
+	r.Count("functional.properties", len(fn))
+	close(ch)
+	wg.Wait()
+	r.Sample(map[string]interface{}{"property": "ActivityStreamsInbox", "ops": []string{"Set(IRI)", "Set(ActivityStreamsOrderedCollection)", "Clear", "Set(IRI)"}})
+	return r.Finish()
+}
